@@ -130,9 +130,13 @@ def gen_hrs(rng, small=True, odd_ok=False, with_opts=True):
             # rows and whole images around the io buffer sizes (8 KiB rows, 64 KiB images)
             w = rng.choice((2730, 2732, 4096, 5462, 8192, 2 * rng.randint(1300, 6000)))
             r = rng.choice((1, 2, 3, 5))
+            if rng.random() < 0.2:
+                w, r = rng.choice((131072, 131074, 140000)), rng.choice((1, 2))   # rows beyond 64 KiB
         if odd_ok and rng.random() < 0.35:
             w = max(1, w - 1)
         s = rng.choice((0, 0, 1, 7, 16, rng.randint(0, 64)))
+        if rng.random() < 0.02:
+            s = rng.choice((65536, 65537, 70000, 100000))    # a skip longer than one 64 KiB block
         opts = ["-w", str(w), "-r", str(r)]
         if s or rng.random() < 0.2:
             opts += ["-s", str(s)]
@@ -175,6 +179,8 @@ def gen_max(rng, small=True, w8_only=True, with_opts=True):
         if not w8_only and rng.random() < 0.35:
             w = max(1, w - rng.randint(1, 7))
         s = rng.choice((0, 0, 0, 5, 7, rng.randint(0, 40)))
+        if rng.random() < 0.02:
+            s = rng.choice((65536, 65537, 70000, 100000))
         use_r = rng.random() < 0.4
         ign = rng.random() < 0.25
     rowb = (w + 7) // 8
